@@ -736,6 +736,22 @@ def _register_int_cells():
                     faulty=lambda: list(bad().split(ctx.y_train)), sig={"splitter": "cutoff"})
     cell("split/cutoff_fh_beyond_series", "window_does_not_fit", "entry_splitter")(cutoff_fh_beyond)
 
+    def cutoff_unsorted_beyond(ctx):
+        # cutoffs may be given in any order (they are sorted on use): the feasibility checks are
+        # about the largest one, wherever it stands in the argument
+        n = len(ctx.y_train)
+        mid = ctx.rng.choice([6, 8, 10])
+        good = _splitter(ctx, type="cutoff", window=4, cutoffs=np.array([n - 6, mid]), fh=[2, 5])
+        if ctx.rng.random() < 0.5:
+            bad = _splitter(ctx, type="cutoff", window=4, cutoffs=np.array([n - 4, mid]),
+                            fh=ctx.rng.choice([[2, 5], [5], [1, 6]]))
+        else:
+            bad = _splitter(ctx, type="cutoff", window=4,
+                            cutoffs=np.array([ctx.rng.choice([n + 2, n, n - 1]), mid]), fh=[1])
+        return dict(control=lambda: list(good().split(ctx.y_train)),
+                    faulty=lambda: list(bad().split(ctx.y_train)), sig={"splitter": "cutoff_unsorted"})
+    cell("split/cutoff_unsorted_beyond_series", "window_does_not_fit", "entry_splitter")(cutoff_unsorted_beyond)
+
     def cutoff_float(ctx):
         good = _splitter(ctx, type="cutoff", window=4, cutoffs=np.array([8, 12]))
         bad = _splitter(ctx, type="cutoff", window=4, cutoffs=np.array([8.5, 12.0]))
